@@ -47,9 +47,13 @@ LIFE = [
     "udp | listen,peer:1,windowconnect",
     "udp | listen,peer:1,peer:2,peer:3,aclose:2,psend:2:4,psend:3:1,wait:20",
     # a reconnect-on-close handler: connects issued from inside close callbacks, also those fired while the engine drains
-    "tcp | listen,peer:1,peer:2,reconnect:4,pclose:1,wait:60,windowconnect",
+    "tcp | listen,peer:1,peer:2,reconnect:12,pclose:1,wait:60,windowconnect",
     "tcp | listen,reconnect:3,connect:self,aclose:1,wait:80,stop",
-    "udp | listen,peer:1,reconnect:3,aclose:1,wait:60,windowconnect",
+    "udp | listen,peer:1,reconnect:9,aclose:1,wait:60,windowconnect",
+    # a connect accepted while the I/O thread is busy in a slow callback, then stop(): the command is processed after _running
+    # has been cleared - the identifier still gets its close
+    "tcp | listen,peer:1,busy:300,psendnow:1:4,connectnow,stop",
+    "udp | listen,peer:1,busy:300,psendnow:1:4,connectnow,stop",
     # UDP: a second session to a peer that already has one (connect-via-listener); gauge sampled while both are open
     "udp | listen,peer:1,via:1,psend:1:3,gauge,aclose:2,wait:40,gauge,aclose:1,wait:40,gauge",
     "udp | listen,peer:1,peer:2,via:2,via:1,gauge,stop",
